@@ -22,6 +22,7 @@
 #include <tao/pegtl/contrib/rep_one_min_max.hpp>
 #include <tao/pegtl/contrib/rep_string.hpp>
 #include <tao/pegtl/contrib/separated_seq.hpp>
+#include <tao/pegtl/contrib/trace.hpp>
 
 namespace vu
 {
@@ -212,6 +213,7 @@ namespace vu
    struct R_inst : P1 {};   // instantiate
    struct R_lb : P1 {};     // limit_bytes
    struct R_ld : P1 {};     // limit_depth
+   struct R_tr : P1 {};     // trace (action that switches to state_control< Control > and appends a tracer)
    struct R_cb : P1 {};     // check_bytes
    struct R_cact : P1 {};   // control_action (with unwind)
    struct R_cact0 : P1 {};  // control_action (without unwind)
@@ -239,6 +241,7 @@ namespace vu
    template<> struct act< R_inst > : instantiate< Inst > {};
    template<> struct act< R_lb > : limit_bytes< 5 > {};
    template<> struct act< R_ld > : limit_depth< 3 > {};
+   template<> struct act< R_tr > : trace_standard {};
    template<> struct act< R_cb > : check_bytes< 5 > {};
    template<> struct act< R_cact > : control_action
    {
@@ -363,6 +366,8 @@ namespace vu
       r = use4< R_lb, act >( in ) && r;
       r = use4< R_ld, act >( din ) && r;
       r = use4< R_cb, act >( in ) && r;
+      r = use4< R_tr, act >( in ) && r;
+      r = use4< R_tr, act >( in, st ) && r;
       r = use4< R_cact, act >( in ) && r;
       r = use4< R_cact0, act >( in ) && r;
 #endif
